@@ -40,6 +40,9 @@
 //     dns.Msg, caches, …) is abstract: parameters of such types are dropped and
 //     an expression that reads from them (`req.Question[0].Qtype`) becomes an
 //     extra parameter `e<k>_<name>` holding its value;
+//   - a keyed composite literal `T{…}` of such a struct type is the structure
+//     value (fields of abstract type are dropped with their element, fields not
+//     mentioned are zero) and `&T{…}` is `some` of it;
 //   - []error literals, append on them and errors.Join are lists of optional
 //     texts and "first non-nil" (errors.Join is non-nil iff an element is);
 //   - any other call is *opaque*: its result becomes an extra parameter of the
@@ -579,6 +582,9 @@ func (c *fctx) expr(e ast.Expr) ex {
 	case *ast.SelectorExpr:
 		return c.selector(x)
 	case *ast.UnaryExpr:
+		if cl, ok := x.X.(*ast.CompositeLit); ok && x.Op == token.AND {
+			return c.bindN([]ex{c.structLit(cl)}, func(s []string) string { return "(some " + s[0] + ")" })
+		}
 		a := c.expr(x.X)
 		switch x.Op {
 		case token.NOT:
@@ -603,12 +609,54 @@ func (c *fctx) expr(e ast.Expr) ex {
 			}
 			return c.bindN(xs, func(s []string) string { return "[" + strings.Join(s, ", ") + "]" })
 		}
+		return c.structLit(x)
 	}
 	if _, ok := e.(*ast.IndexExpr); ok {
 		return c.opaqueValue(e)
 	}
 	fail("expression %s (%T)", c.show(e), e)
 	return ex{}
+}
+
+// structLit translates a keyed composite literal of a translatable struct
+// type: elements of fields of abstract type are dropped together with the
+// field, fields that are not mentioned hold their zero value.
+func (c *fctx) structLit(x *ast.CompositeLit) ex {
+	ty := c.typeOf(x)
+	st, ok := ty.Underlying().(*types.Struct)
+	lt := c.t.leanType(ty)
+	if !ok || lt == "" {
+		fail("expression %s (%T)", c.show(x), x)
+	}
+	vals := map[string]ast.Expr{}
+	for _, el := range x.Elts {
+		kv, ok := el.(*ast.KeyValueExpr)
+		if !ok {
+			fail("unkeyed composite literal %s", c.show(x))
+		}
+		vals[kv.Key.(*ast.Ident).Name] = kv.Value
+	}
+	var xs []ex
+	var names []string
+	for i := 0; i < st.NumFields(); i++ {
+		f := st.Field(i)
+		if c.t.leanType(f.Type()) == "" {
+			continue
+		}
+		names = append(names, leanIdent(f.Name()))
+		if v, ok := vals[f.Name()]; ok {
+			xs = append(xs, c.exprAs(v, f.Type()))
+		} else {
+			xs = append(xs, ex{code: c.zero(f.Type())})
+		}
+	}
+	return c.bindN(xs, func(s []string) string {
+		parts := make([]string, len(s))
+		for i := range s {
+			parts[i] = names[i] + " := " + s[i]
+		}
+		return "({ " + strings.Join(parts, ", ") + " } : " + lt + ")"
+	})
 }
 
 // opaqueValue turns an expression the subset cannot express (an element of a
